@@ -11,4 +11,5 @@ print()
 print("| finding | fix commit | property | outcome of reverting it | first replay |")
 print("|---|---|---|---|---|")
 for r in json.load(open(os.path.join(R, "seeded", "reverts.json"))):
-    print("| %s | %s | %s | %s | %s |" % (r["id"], r["commit"], r["property"], r["outcome"], ("%s/%s" % (r.get("replay_kind"), r.get("component"))) if r.get("replay_kind") else r.get("note", "")))
+    how = ("%s/%s" % (r.get("replay_kind"), r.get("component") or "-")) if r.get("replay_kind") else ""
+    print("| %s | %s | %s | %s | %s |" % (r["id"], r["commit"], r["property"], r["outcome"], "; ".join(x for x in (how, r.get("note", "")) if x)))
